@@ -3,7 +3,7 @@ C12 tool level: the CLI tools (un-sanitized builds of the working tree) under ha
 short counts / EINTR / byte-at-a-time on read, write, pread, pwrite) and a pipe feeder / slow drain; the sha256 of
 the image / archive / unpacked tree / stdout and the exit status must equal the unperturbed run's.
 """
-import fcntl, gzip, hashlib, io, os, random, shutil, stat, subprocess, tarfile, threading, time
+import fcntl, gzip, hashlib, io, os, random, shutil, socket, stat, subprocess, tarfile, threading, time
 import vlib
 
 TOOLS = ["gensquashfs", "tar2sqfs", "sqfs2tar", "rdsquashfs"]
@@ -44,6 +44,56 @@ def tree_hash(root):
             else:
                 h.update(("O %s %o\n" % (rel, st.st_mode)).encode())
     return h.hexdigest()
+
+
+def tar_header(name, size, sparse=(), realsize=None, mode=0o644, typeflag=None):
+    """one 512-byte tar header block: a plain ustar regular file, or (with `sparse` = [(offset, count), ...], at most 4
+    entries) an old-GNU sparse member (type 'S', magic "ustar  ", the map and the real size in the header)"""
+    h = bytearray(512)
+
+    def put(off, b):
+        h[off:off + len(b)] = b
+    put(0, name)
+    put(100, b"%07o\0" % mode)
+    put(108, b"0000000\0")
+    put(116, b"0000000\0")
+    put(124, b"%011o\0" % size)
+    put(136, b"%011o\0" % 1000000000)
+    put(329, b"0000000\0")
+    put(337, b"0000000\0")
+    if sparse:
+        assert len(sparse) <= 4
+        put(156, typeflag or b"S")
+        put(257, b"ustar  \0")
+        for i, (o, c) in enumerate(sparse):
+            put(386 + 24 * i, b"%011o\0" % o)
+            put(386 + 24 * i + 12, b"%011o\0" % c)
+        put(483, b"%011o\0" % (size if realsize is None else realsize))
+    else:
+        put(156, typeflag or b"0")
+        put(257, b"ustar\0" + b"00")
+    put(148, b" " * 8)
+    put(148, b"%06o\0 " % sum(h))
+    return bytes(h)
+
+
+def sparse_archive(rng):
+    """a tar archive (hand-made: Python's tarfile cannot write sparse members) with old-GNU sparse members whose holes are
+    shorter and longer than the 4096-byte zero window of the tar member stream, a plain member between them, end blocks"""
+    out = bytearray()
+
+    def member(name, record, sparse=(), realsize=None):
+        out.extend(tar_header(name, len(record), sparse, realsize))
+        out.extend(record)
+        out.extend(b"\0" * ((512 - len(record) % 512) % 512))
+    d1, d2, d3 = rng.randbytes(700), rng.randbytes(5000), rng.randbytes(1)
+    member(b"sparse_a.bin", d1 + d2 + d3, [(3, 700), (10000, 5000), (150000, 1)], 150001 + rng.choice([0, 1, 9000]))
+    member(b"plain_b.bin", rng.randbytes(rng.choice([0, 511, 513, 140000])))
+    d4 = rng.randbytes(4096)
+    member(b"sparse_c.bin", d4, [(0, 4096), (8192, 0)], 8192)            # ends in a hole of exactly 4096
+    member(b"sparse_d.bin", b"", [(300000, 0)], 300000)                   # nothing but a hole
+    out.extend(b"\0" * 1024)
+    return bytes(out)
 
 
 def make_inputs(work, rng):
@@ -100,37 +150,56 @@ def make_inputs(work, rng):
     with open(work / "in_pax.tar.gz", "wb") as f:
         with gzip.GzipFile(fileobj=f, mode="wb", mtime=0) as g:
             g.write(raw)
+    raw = sparse_archive(rng)
+    (work / "in_sparse.tar").write_bytes(raw)
+    with open(work / "in_sparse.tar.gz", "wb") as f:
+        with gzip.GzipFile(fileobj=f, mode="wb", mtime=0) as g:
+            g.write(raw)
     return src, names
 
 
-def run_tool(argv, env, stdin_path=None, feed_chunk=0, stdout_path=None, drain_chunk=0, timeout=300, rng=None):
-    """run one tool; stdin from a pipe fed in `feed_chunk`-byte pieces (0: plain file redirect); stdout drained from a small
-    pipe in `drain_chunk`-byte pieces with pauses (0: straight into the file). Returns exit status (or 'timeout')."""
+def run_tool(argv, env, stdin_path=None, feed_chunk=0, stdout_path=None, drain_chunk=0, timeout=900, rng=None, sock=False):
+    """run one tool; stdin from a pipe (or, with `sock`, a UNIX stream socket) fed in `feed_chunk`-byte pieces (0: plain
+    file redirect); stdout drained from a small pipe (or socket) in `drain_chunk`-byte pieces with pauses (0: straight into
+    the file). Returns exit status (or 'timeout')."""
     fin = fout = None
     kw = {}
+    sin = sout = None            # our ends of the socket pairs
+    close_after = []
     if stdin_path is not None:
-        if feed_chunk:
+        if feed_chunk and sock:
+            sin, theirs = socket.socketpair()
+            kw["stdin"] = theirs; close_after.append(theirs)
+        elif feed_chunk:
             kw["stdin"] = subprocess.PIPE
         else:
             fin = open(stdin_path, "rb"); kw["stdin"] = fin
     else:
         kw["stdin"] = subprocess.DEVNULL
     if stdout_path is not None:
-        if drain_chunk:
+        if drain_chunk and sock:
+            sout, theirs = socket.socketpair()
+            kw["stdout"] = theirs; close_after.append(theirs)
+        elif drain_chunk:
             kw["stdout"] = subprocess.PIPE
         else:
             fout = open(stdout_path, "wb"); kw["stdout"] = fout
     else:
         kw["stdout"] = subprocess.DEVNULL
     p = subprocess.Popen(argv, env=env, stderr=subprocess.PIPE, **kw)
+    for x in close_after:
+        x.close()
     ths = []
     if stdin_path is not None and feed_chunk:
         data = open(stdin_path, "rb").read()
 
         def feed():
-            fd = p.stdin.fileno()
+            fd = sin.fileno() if sin is not None else p.stdin.fileno()
             try:
-                fcntl.fcntl(fd, F_SETPIPE_SZ, 4096)
+                if sin is None:
+                    fcntl.fcntl(fd, F_SETPIPE_SZ, 4096)
+                else:
+                    sin.setsockopt(socket.SOL_SOCKET, socket.SO_SNDBUF, 4096)
             except OSError:
                 pass
             i, n = 0, 0
@@ -143,15 +212,19 @@ def run_tool(argv, env, stdin_path=None, feed_chunk=0, stdout_path=None, drain_c
             except (BrokenPipeError, OSError):
                 pass
             try:
-                p.stdin.close()
+                if sin is not None:
+                    sin.close()
+                else:
+                    p.stdin.close()
             except OSError:
                 pass
         ths.append(threading.Thread(target=feed))
     if stdout_path is not None and drain_chunk:
         def drain():
-            fd = p.stdout.fileno()
+            fd = sout.fileno() if sout is not None else p.stdout.fileno()
             try:
-                fcntl.fcntl(fd, F_SETPIPE_SZ, 4096)
+                if sout is None:
+                    fcntl.fcntl(fd, F_SETPIPE_SZ, 4096)
             except OSError:
                 pass
             n = 0
@@ -173,7 +246,7 @@ def run_tool(argv, env, stdin_path=None, feed_chunk=0, stdout_path=None, drain_c
     except subprocess.TimeoutExpired:
         p.kill(); rc = "timeout"
     [t.join(10) for t in ths]
-    for f in (fin, fout):
+    for f in (fin, fout, sout):
         if f:
             f.close()
     return rc, (errbuf[0][-600:].decode("utf8", "replace") if errbuf else "")
@@ -188,6 +261,8 @@ def scenarios(work, bins, names):
     S["tar2sqfs-pax"] = dict(argv=lambda out: [str(bins["tar2sqfs"]), "-q", "-f", out], stdin=str(work / "in_pax.tar"), kind="file")
     S["tar2sqfs-gnu"] = dict(argv=lambda out: [str(bins["tar2sqfs"]), "-q", "-f", out], stdin=str(work / "in_gnu.tar"), kind="file")
     S["tar2sqfs-gz"] = dict(argv=lambda out: [str(bins["tar2sqfs"]), "-q", "-f", out], stdin=str(work / "in_pax.tar.gz"), kind="file")
+    S["tar2sqfs-sparse"] = dict(argv=lambda out: [str(bins["tar2sqfs"]), "-q", "-f", out], stdin=str(work / "in_sparse.tar"), kind="file")
+    S["tar2sqfs-sparse-gz"] = dict(argv=lambda out: [str(bins["tar2sqfs"]), "-q", "-f", out], stdin=str(work / "in_sparse.tar.gz"), kind="file")
     S["sqfs2tar"] = dict(argv=lambda out: [str(bins["sqfs2tar"]), img], kind="stdout")
     S["sqfs2tar-gzip"] = dict(argv=lambda out: [str(bins["sqfs2tar"]), "-c", "gzip", img], kind="stdout")
     S["rdsquashfs-unpack"] = dict(argv=lambda out: [str(bins["rdsquashfs"]), "-q", "-u", "/", "-p", out, img], kind="tree")
@@ -198,7 +273,7 @@ def scenarios(work, bins, names):
     return S
 
 
-def run_scenario(work, sc, env, tag, feed_chunk=0, drain_chunk=0, rng=None):
+def run_scenario(work, sc, env, tag, feed_chunk=0, drain_chunk=0, rng=None, sock=False):
     out = str(work / ("out_" + tag))
     if os.path.isdir(out):
         shutil.rmtree(out)
@@ -209,7 +284,7 @@ def run_scenario(work, sc, env, tag, feed_chunk=0, drain_chunk=0, rng=None):
     argv = sc["argv"](out)
     rc, err = run_tool(argv, env, stdin_path=sc.get("stdin"), feed_chunk=feed_chunk if sc.get("stdin") else 0,
                        stdout_path=out if sc["kind"] == "stdout" else None,
-                       drain_chunk=drain_chunk if sc["kind"] == "stdout" else 0, rng=rng)
+                       drain_chunk=drain_chunk if sc["kind"] == "stdout" else 0, rng=rng, sock=sock)
     if sc["kind"] == "tree":
         digest = tree_hash(out)
         shutil.rmtree(out, ignore_errors=True)
@@ -223,6 +298,8 @@ def run_scenario(work, sc, env, tag, feed_chunk=0, drain_chunk=0, rng=None):
 CONFIGS = [
     {"VERIF_IO_SHORT": "300", "VERIF_IO_EINTR": "100"},
     {"VERIF_IO_MAXCHUNK": "1"},
+    # EINTR runs far beyond any plausible retry cap: ~98 % of the calls are interrupted, up to 400 times in a row
+    {"VERIF_IO_EINTR": "985", "VERIF_IO_EINTR_BURST": "400", "VERIF_IO_SHORT": "200"},
     {"VERIF_IO_SHORT": "900", "VERIF_IO_EINTR": "500", "VERIF_IO_MAXCHUNK": "7"},
     {"VERIF_IO_EINTR": "900"},
     {"VERIF_IO_SHORT": "1000"},
@@ -264,36 +341,46 @@ def run(ctx, seed=None, only=None, nper=None):
     if rc != 0:
         raise vlib.CheckFailure("cannot build the base image: rc=%s %s" % (rc, err))
     if nper is None:
-        nper = 2 if ctx.quick() else 12
+        nper = 3 if ctx.quick() else 12
     results, skipped, agg = [], [], {}
     for name, sc in S.items():
         if only and name != only["scenario"]:
             continue
         b1 = run_scenario(work, sc, base_env, "base")
         b2 = run_scenario(work, sc, base_env, "base")
+        if b1[0] != 0 or b1[1] == "absent":
+            # a scenario whose unperturbed run fails compares nothing: failure of the check, not a pass
+            raise vlib.CheckFailure("tool scenario %s: the unperturbed run failed (exit %s, output %s): %s" % (name, b1[0], b1[1], b1[2][-400:]))
         if b1[:2] != b2[:2]:
-            skipped.append({"scenario": name, "why": "two unperturbed runs differ (not a C12 matter)", "runs": [b1[:2], b2[:2]]})
-            continue
+            raise vlib.CheckFailure("tool scenario %s: two unperturbed runs differ (%s vs %s), nothing to compare a perturbed run with" % (
+                name, b1[:2], b2[:2]))
         runs = []
         if only:
-            runs = [(only["config"], only["feed"], only["drain"], only["shim_seed"])]
+            runs = [(only["config"], only["feed"], only["drain"], only["shim_seed"], only.get("sock", False))]
         else:
             for i in range(nper):
-                cfg = CONFIGS[(rng.randrange(len(CONFIGS)) if i >= 2 else (i + list(S).index(name)) % 2)]
-                # every scenario sees the mixed config and byte-at-a-time in the quick tier; more in thorough
-                runs.append((cfg, rng.choice(FEEDS), rng.choice([1, 13, 4096]), rng.randrange(1 << 30)))
-        for cfg, feed, drain, sseed in runs:
+                # every scenario sees the mixed config, byte-at-a-time and the long EINTR runs in the quick tier; more in thorough
+                cfg = CONFIGS[(rng.randrange(len(CONFIGS)) if i >= 3 else (i + list(S).index(name)) % 3)]
+                runs.append((cfg, rng.choice(FEEDS), rng.choice([1, 13, 4096]), rng.randrange(1 << 30), rng.random() < 0.35))
+        for cfg, feed, drain, sseed, sock in runs:
             env = dict(base_env)
             env.update(cfg)
             rep = str(work / "shim_report.txt")
             env.update({"LD_PRELOAD": str(so), "VERIF_IO_SEED": str(sseed), "VERIF_IO_REPORT": rep})
             t0 = time.time()
-            r = run_scenario(work, sc, env, "pert", feed_chunk=feed, drain_chunk=drain, rng=random.Random(sseed))
+            r = run_scenario(work, sc, env, "pert", feed_chunk=feed, drain_chunk=drain, rng=random.Random(sseed), sock=sock)
             before = {k: dict(v) for k, v in agg.items()}
             parse_report(rep, agg)
             fired = sum(agg.get(op, {}).get(k, 0) - before.get(op, {}).get(k, 0) for op in agg for k in ("short", "eintr"))
-            results.append({"scenario": name, "config": cfg, "feed": feed, "drain": drain, "shim_seed": sseed, "seed": seed,
+            results.append({"scenario": name, "config": cfg, "feed": feed, "drain": drain, "shim_seed": sseed, "seed": seed, "sock": sock,
                             "base": b1[:2], "pert": r[:2], "stderr": r[2], "fired": fired, "wall": round(time.time() - t0, 2),
                             "ok": r[:2] == b1[:2]})
     shutil.rmtree(work, ignore_errors=True)
+    if not only:
+        # floors: every scenario ran and was really perturbed; every interposed function saw short counts and EINTRs
+        quiet = [n for n in S if not any(r["scenario"] == n and r["fired"] > 0 for r in results)]
+        dead = [(op, k) for op in ("read", "write", "pread", "pwrite") for k in ("short", "eintr") if agg.get(op, {}).get(k, 0) == 0]
+        if len(results) != len(S) * nper or quiet or dead:
+            raise vlib.CheckFailure("tool level evaluated too little: %d of %d runs, scenarios never perturbed %s, counters at zero %s" % (
+                len(results), len(S) * nper, quiet, dead))
     return results, agg, skipped
